@@ -109,6 +109,8 @@ func (p prop) RunCase(c *fw.Ctx, rng *fw.RNG, batch, i int) {
 			typedmon.CheckViews(c, gen, ts, t, tv, rng)
 			if k%3 == 0 {
 				typedmon.CheckWrongKind(c, gen, ts, t, tv)
+			} else if k%3 == 1 {
+				typedmon.CheckTypedReadback(c, gen, ts, t, tv, rng)
 			}
 			if k == 0 {
 				if _, rp := gen.Proto(t.Name); rp != nil {
